@@ -277,13 +277,9 @@ def gap_sigs(stdout):
     return out
 
 
-def check_traces(ctx, traces, labels, tag, info=None):
-    """validate observed traces with MetadataTrace (either variant of the rejected-open step); report rejections as
-    violations and as-found steps under the known-finding signature.  Returns number of accepted traces."""
-    if not traces:
-        return 0
-    cl = [clean(t) for t in traces]
-    v = validate_traces("MetadataTrace", "MetadataTrace.cfg", cl, SD, ctx.out, tag=tag, timeout=3000)
+def check_traces(ctx, cl, labels, v, info=None):
+    """cl: observed traces, v: their verdict by MetadataTrace (either variant of the rejected-open step is accepted).
+    Reports rejections as violations and as-found steps under the known-finding signature.  Returns number of accepted traces."""
     ctx.add_tlc(v.res, f"MetadataTrace ({len(cl)} traces)")
     for idx, upto in v.rejected.items():
         t = cl[idx]
@@ -325,8 +321,19 @@ def run(ctx):
         assert 'Variant = "fixed"' in txt and "INVARIANT C17_NoGap\n" in txt
         (ctx.out / f"asfound_{cfgs[k]}").write_text(txt.replace('Variant = "fixed"', 'Variant = "asfound"').replace("INVARIANT C17_NoGap\n", ""))
         cfgs[k + "_asfound"] = str(ctx.out / f"asfound_{cfgs[k]}")
-    with ThreadPoolExecutor(5) as ex:
+    # random larger histories are executed on the implementation first (they do not depend on TLC) so that their
+    # validation by MetadataTrace runs concurrently as well
+    rng = random.Random(ctx.seed)
+    traces = []
+    for _ in range(60 if quick else 1500):
+        h = random_history(rng, quick)
+        try:
+            traces.append(clean(execute(h, TRACE_KEYS)))
+        except Exception as ex:  # noqa
+            ctx.violation(f"random-exc:{type(ex).__name__}", f"random history raised {ex!r}", {"hist": h})
+    with ThreadPoolExecutor(6) as ex:
         futs = {k: ex.submit(run_tlc, "Metadata", c, spec_dir=SD, tag="C17" + k, workers=1, timeout=3000) for k, c in cfgs.items()}
+        vt = ex.submit(validate_traces, "MetadataTrace", "MetadataTrace.cfg", traces, SD, ctx.out, tag="C17t", timeout=3000)
         results = {k: f.result() for k, f in futs.items()}
     # 2. every maximal history replayed on a real RunEngine
     n_hist = n_asfound = 0
@@ -348,6 +355,7 @@ def run(ctx):
         if not hists or len(asfound) != len(hists):
             ctx.machinery(f"history dumps of {cfg}: {len(hists)} repaired / {len(asfound)} as-found")
         n_hist += len(hists)
+        ctx.note(f"{cfg}: {len(hists)} maximal histories")
         for h in hists:
             key = key_of(h)
             nt = nontrivial(h)
@@ -389,19 +397,11 @@ def run(ctx):
                       f"leaves RE.md['scan_id'] = {obs[-1]['md']['scan_id']} after {len(ids)} opened run(s)", {"hist": cex, "observed": obs})
     else:
         ctx.note(f"as-found counterexample does not reproduce on this tree ({d}): the rejected-open defect appears repaired")
-    # 4. random larger histories on the implementation, validated by TLC (either variant of the rejected-open step is
-    #    accepted; the as-found step is announced by TLC and reported under the known-finding signature)
-    rng = random.Random(ctx.seed)
-    traces = []
-    for _ in range(60 if quick else 1500):
-        h = random_history(rng, quick)
-        try:
-            traces.append(execute(h, TRACE_KEYS))
-        except Exception as ex:  # noqa
-            ctx.violation(f"random-exc:{type(ex).__name__}", f"random history raised {ex!r}", {"hist": h})
+    # 4. the random larger histories, validated by TLC (either variant of the rejected-open step is accepted; the
+    #    as-found step is announced by TLC and reported under the known-finding signature)
     for t in traces:
         ctx.case(key_of(t), nontrivial(t))
-    ctx.traces(check_traces(ctx, traces, ["random history"] * len(traces), "C17t"))
+    ctx.traces(check_traces(ctx, traces, ["random history"] * len(traces), vt.result()))
     ctx.assumptions += ["the default scan_id source is used and the persistent scan_id (if present) is a small positive integer",
                         "validator / normalizer are plain callables that either return or raise; the rename normalizer returns a new dict",
                         "start documents are observed through RunEngine.subscribe(..., 'start'); uid and time are ignored",
